@@ -8,12 +8,36 @@ import (
 	"fmt"
 	"go/token"
 	"go/types"
+	"strings"
 
 	"golang.org/x/tools/go/ssa"
 )
 
 func init() {
-	register(&propDef{ID: "C09", Level: "proof", Run: runC09, Canaries: map[string]string{"cache": c09Canary}})
+	register(&propDef{ID: "C09", Level: "proof", Run: runC09, CanaryGen: c09CanaryGen})
+}
+
+// c09CanaryGen writes the canary functions with the field names the current tree uses.
+var c09Names struct{ mu, size, count, onEvict string }
+
+func c09CanaryGen(P *Prog) map[string]string {
+	ct := P.Named("cache", "Cache")
+	size, _, count, _, onEvict := resolveCacheFields(P)
+	if ct == nil || size == nil || count == nil || onEvict == nil {
+		return nil
+	}
+	mu := ""
+	for _, f := range structFields(ct) {
+		if ts := f.Type().String(); ts == "sync.Mutex" || ts == "sync.RWMutex" {
+			mu = f.Name()
+		}
+	}
+	if mu == "" || P.Func("cache", "Cache", "Has") == nil {
+		return nil
+	}
+	c09Names.mu, c09Names.size, c09Names.count, c09Names.onEvict = mu, size.Name(), count.Name(), onEvict.Name()
+	r := strings.NewReplacer("μ", mu, "c.size", "c."+size.Name(), "c.count", "c."+count.Name(), "c.onEvict", "c."+onEvict.Name())
+	return map[string]string{"cache": r.Replace(c09Canary)}
 }
 
 const c09Canary = `package cache
@@ -600,12 +624,12 @@ func runC09(c *Ctx) {
 	c.judge(len(concur) == 0, "R-NO-GO", "package cache", 0, fmt.Sprintf("%d functions scanned", len(fns)), fmt.Sprint(concur))
 
 	// R-STORE-PRIVATE
-	lru := P.Named("cache", "lruStore")
-	lruFn := P.Func("cache", "", "LRU")
-	if lru == nil || lruFn == nil {
-		c.undecided("ANCHOR", "cache.lruStore/LRU", 0, "anchor not found")
+	roles := resolveLRU(P)
+	if roles == nil {
+		c.undecided("ANCHOR", "cache LRU store / LRU", 0, "anchor not found")
 		return
 	}
+	lru, lruFn := roles.storeT, roles.lruFn
 	allocs, badAlloc := 0, []string{}
 	fieldTouch, badTouch := 0, []string{}
 	staticCalls := []string{}
@@ -648,11 +672,15 @@ func runC09(c *Ctx) {
 	c.judge(len(staticCalls) == 0, "R-STORE-PRIVATE", "lruStore:static-calls", lruFn.Pos(), "methods are reached only through the Store interface", "lruStore method called statically from outside the type: "+fmt.Sprint(staticCalls))
 
 	// canary expectations
-	c.CanaryBad["R-LOCK-WHO/cache.verifCanaryReadsSize:access field size"] = true
-	c.CanaryOK["R-LOCK-HELD/cache.verifTwinReadsSize:access field size"] = true
-	c.CanaryBad["R-LOCK-HELD/cache.(*Cache).verifCanaryUnlockEarly:call callback onEvict"] = true
-	c.CanaryBad["R-LOCK-WHOLE/cache.(*Cache).verifCanaryUnlockEarly"] = true
-	c.CanaryBad["R-LOCK-REENTRY/cache.(*Cache).verifCanaryReenter"] = true
+	if c09Names.size != "" {
+		c.CanaryBad["R-LOCK-WHO/cache.verifCanaryReadsSize:access field "+c09Names.size] = true
+		c.CanaryOK["R-LOCK-HELD/cache.verifTwinReadsSize:access field "+c09Names.size] = true
+		c.CanaryBad["R-LOCK-HELD/cache.(*Cache).verifCanaryUnlockEarly:call callback "+c09Names.onEvict] = true
+	}
+	if c09Names.size != "" {
+		c.CanaryBad["R-LOCK-WHOLE/cache.(*Cache).verifCanaryUnlockEarly"] = true
+		c.CanaryBad["R-LOCK-REENTRY/cache.(*Cache).verifCanaryReenter"] = true
+	}
 }
 
 func mapVals(m map[*types.Var]string) []string {
